@@ -140,6 +140,14 @@ def r13_8(ctx: Ctx) -> None:
                       "os.chdir() the parallel path fails with FileNotFoundError or decodes another file of the same name, while the sequential path extracts correctly "
                       "(and os.path.abspath/normpath collapse 'link/..' textually: another file is opened or created behind a symbolic link)",
                       construct="archive opened by relative name")
+            # an ABSOLUTE name does not depend on the working directory: os.getcwd() is consulted only for a name that is not absolute
+            # (it raises FileNotFoundError when the working directory has been removed, which is no reason to refuse '/abs/x.7z')
+            for g in [x for e in srcs for x in ast.walk(e) if isinstance(x, ast.Call) and dotted(x.func) in ("os.getcwd", "os.getcwdb")]:
+                guarded = any((not pol) and isinstance(cd, ast.Call) and (dotted(cd.func) or "").endswith("isabs") for cd, pol in q.facts_at(init, g)) or \
+                    any(pol and isinstance(cd, ast.UnaryOp) for cd, pol in q.facts_at(init, g) if isinstance(cd, ast.UnaryOp) and isinstance(cd.op, ast.Not) and "isabs" in norm(cd.operand))
+                ctx.check(guarded, "R13.8", init, g, "the working directory is consulted only for a relative archive name",
+                          "the constructor calls os.getcwd() for every archive name: `SevenZipFile('/abs/x.7z')` raises FileNotFoundError in a process whose working directory has been "
+                          "deleted although the name does not depend on it (upstream opens it)", construct="getcwd for absolute name")
 
 
 def run(ctx: Ctx) -> None:
